@@ -31,6 +31,7 @@ type cropJob struct {
 	File     string      `json:"file"`
 	Prior    int         `json:"prior"`
 	Cont     bool        `json:"cont"`
+	Mode     int         `json:"mode"` // 0: from cont; 2: rotation position 2 after the same crop; 3: position 3 after another crop
 	CropFile string      `json:"cropfile"`
 	Args     [][2]string `json:"args"`
 }
@@ -157,10 +158,17 @@ func cropStateCmd(args []string) {
 			g.Session = session
 			l := hermes.CropSharedVars{}
 			priorState(&g, &l, j.Prior == 1)
-			if j.Cont { // the perennial crop continues: AKF.Num > 2 and the same crop as before
+			switch {
+			case j.Mode == 2: // second rotation entry after the same crop: not a continuing stand (AKF.Num = 2)
+				g.AKF.SetByIndex(1)
+				g.FRUCHT[0], g.FRUCHT[1] = 7, 7
+			case j.Mode == 3: // third entry after a different crop
+				g.AKF.SetByIndex(2)
+				g.FRUCHT[0], g.FRUCHT[1], g.FRUCHT[2] = 7, 8, 7
+			case j.Cont: // the perennial crop continues: AKF.Num > 2 and the same crop as before
 				g.AKF.SetByIndex(2)
 				g.FRUCHT[1], g.FRUCHT[2] = 7, 7
-			} else {
+			default:
 				g.AKF.SetByIndex(1)
 				g.FRUCHT[0], g.FRUCHT[1] = 7, 8
 			}
